@@ -476,6 +476,12 @@ def _emission_protocol(r: RuleResult, f: FuncInfo, label: str):
             "the selected conclusions are not cleared after an emission: they are applied to later results as well")
 
 
+def _shared_default(prog):
+    from .shareddefault import shared_default
+
+    return shared_default(prog, ["entity_query_language.conclusion_selector", "entity_query_language.rule", "entity_query_language.conclusion"], 10)
+
+
 def run(prog: Program, tier: str) -> List[RuleResult]:
     # thorough: three selector levels (259 initial shapes per routine) instead of two (43)
     from .c03 import carry1, carry_reset_reach
@@ -483,4 +489,6 @@ def run(prog: Program, tier: str) -> List[RuleResult]:
     # what a selector remembers about conclusions it already produced decides which branch fires: it must be reset for every concrete selector (shared with C03)
     return [rule_surgery(prog, 3 if tier == "thorough" else 2), rule_select(prog), carry1(prog),
             # ... and the reset has to reach the selectors of branches written after an evaluation
-            carry_reset_reach(prog)]
+            carry_reset_reach(prog),
+            # the selectors' memories are separate objects (true / false results, one selector and the next)
+            _shared_default(prog)]
